@@ -21,7 +21,7 @@ from .simfs import ChunkyText, Fault, FaultyStringIO, SimFS, make_caller_wrapper
 PROP = 'C19'
 LEGAL_FAULTS = ('short', 'EINTR')   # the io stack must absorb these: the operation sees nothing
 
-RUN_CLASSES = ('faultfree', 'faulty', 'realdisk')
+RUN_CLASSES = ('faultfree', 'faulty', 'realdisk', 'long')
 
 C19_KINDS = ['list', 'tlist', 'tuple', 'ttuple', 'vtuple', 'dict', 'tdict', 'opt', 'union', 'lit', 'cls', 'enum',
              'gen', 'set', 'tseq', 'ann', 'vol', 'range', 'dl', 'tl']
@@ -87,6 +87,9 @@ SINKS_STREAM = ['s0', 's1', 's2', 's3']   # StringIO, TextIOWrapper over SimRaw,
 
 
 def gen_plan(seed: int, cls: str) -> dict:
+    long_run = cls == 'long'
+    if long_run:
+        cls = 'faulty'          # long histories on few sinks, faults interleaved
     st = Streams(seed)
     rk, ro, rf = st.rng('knobs'), st.rng('ops'), st.rng('fault')
     knobs = gen_knobs(rk, cls)
@@ -112,7 +115,7 @@ def gen_plan(seed: int, cls: str) -> dict:
             except Exception:
                 pass
     values = []
-    ntypes = ro.choice([1, 2, 2, 3])
+    ntypes = ro.choice([1, 2, 2, 3]) if not long_run else ro.choice([3, 4, 6])
     for _ in range(ntypes):
         r = ro.random()
         plain = [n for (n, s) in world.class_specs.items() if not s.get('tv')]
@@ -160,7 +163,7 @@ def gen_plan(seed: int, cls: str) -> dict:
         else:
             values.append({'t': ['dict', ['s', 'str'], ['s', 'int']], 'data': {'d': [[f'k{i}', i] for i in range(n)]}, 'custom': None, 'big': True})
     ops = []
-    nops = ro.choice([1, 2, 3, 4, 6, 8, 12])
+    nops = ro.choice([1, 2, 3, 4, 6, 8, 12]) if not long_run else ro.choice([20, 30, 40, 60])
     sinks = SINKS_PATH + SINKS_STREAM + ['str0']
     if cls == 'realdisk':
         sinks = SINKS_PATH + ['s0']
@@ -234,7 +237,7 @@ def gen_plan(seed: int, cls: str) -> dict:
                                        'pathkind': rf.choice(PATHKINDS)})
                     k += 2
                 k += 1
-    return {'prop': PROP, 'seed': seed, 'cls': cls, 'knobs': knobs, 'defs': defs, 'values': values, 'ops': ops}
+    return {'prop': PROP, 'seed': seed, 'cls': 'long' if long_run else cls, 'knobs': knobs, 'defs': defs, 'values': values, 'ops': ops}
 
 
 def _cls_uses_opaque(ast, world):
@@ -1040,7 +1043,7 @@ def tier_config(tier):
     if tier == 'quick':
         return {'classes': [('faultfree', 2500), ('faulty', 3500), ('realdisk', 200)], 'chunk': 50, 'selftest_n': 300,
                 'sample': 1, 'hang_s': 600}
-    return {'classes': [('faultfree', 4000), ('faulty', 6000), ('realdisk', 400)], 'chunk': 50, 'selftest_n': 600,
+    return {'classes': [('faultfree', 4000), ('faulty', 6000), ('realdisk', 400), ('long', 600)], 'chunk': 50, 'selftest_n': 600,
             'sample': 1, 'hang_s': 900, 'repeat': True, 'budget_s': 600}
 
 
